@@ -472,6 +472,23 @@ func ruleCompositeShapes(c *core.Ctx) {
 			// every stored value must be produced inside the same loop iteration
 			for _, a := range call.Common().Args[1:] {
 				src := core.Canon(a)
+				// look through reflect accessors: keyEl.Elem() shares storage with keyEl
+				for depth := 0; depth < 6; depth++ {
+					cl, ok := src.(*ssa.Call)
+					if !ok {
+						break
+					}
+					f := cl.Call.StaticCallee()
+					if f == nil || len(cl.Call.Args) == 0 {
+						break
+					}
+					switch core.FuncKey(f) {
+					case "reflect.Value.Elem", "reflect.Value.Addr", "reflect.Value.Index", "reflect.Value.Field", "reflect.Indirect":
+						src = core.Canon(cl.Call.Args[0])
+						continue
+					}
+					break
+				}
 				var def ssa.Instruction
 				if e, ok := src.(*ssa.Extract); ok {
 					def, _ = e.Tuple.(ssa.Instruction)
